@@ -81,6 +81,10 @@ func (man *chunkManager) OnChunkInputRecovered(chunk base.LogChunk) {
 	man.operator.OnChunkRecovered(chunk)
 }
 
+func (man *chunkManager) OnChunkSkipped(chunk base.LogChunk) {
+	man.operator.OnChunkSkipped(chunk)
+}
+
 func (man *chunkManager) OnChunkConsumed(chunk base.LogChunk) {
 	man.operator.RemoveChunk(chunk)
 	man.metrics.pendingChunks.Dec()
